@@ -281,6 +281,37 @@ def k_orbit(params):
         viol.append(violation("orbit/state_not_applied", "orbit.initial_state differs from the corrected state [%s]" % tag))
     if abs(T - 2 * result.half_period) > 1e-14:
         viol.append(violation("orbit/period_not_applied", "orbit.period != 2*half_period [%s]" % tag))
+    # independent evaluation of the family's own constraints: propagate the returned state with the harness field to the first crossing of the
+    # family's section and read the constrained components there
+    try:
+        cfg = orbit.correction_config
+        ridx = [int(getattr(i, "value", i)) for i in cfg.residual_indices]
+        target = np.asarray(cfg.target, dtype=float)
+        plane = next(c.cell_contents for c in (cfg.event_func.__closure__ or ()) if hasattr(c.cell_contents, "normal"))
+        nvec, noff = np.asarray(plane.normal, dtype=float), float(plane.offset)
+
+        def gfun(t, y):
+            return float(nvec @ np.asarray(y, dtype=float) - noff)
+        from scipy.integrate import solve_ivp
+
+        def ev(t, y):
+            return float(gfun(float(t), np.asarray(y, dtype=float))) if t > 1e-3 else 1.0 * np.sign(float(gfun(1e-3, np.asarray(y, dtype=float))) or 1.0)
+        sol = solve_ivp(_field(mu), (0.0, 1.2 * T), x0, method="DOP853", rtol=1e-13, atol=1e-14, dense_output=True)
+        ts = np.linspace(1e-3, 1.2 * T, 4000)
+        gs = np.array([float(gfun(float(t), sol.sol(t))) for t in ts])
+        k = next((i for i in range(len(ts) - 1) if gs[i] * gs[i + 1] < 0), None)
+        if k is not None:
+            from scipy.optimize import brentq
+            tc = brentq(lambda t: float(gfun(float(t), sol.sol(t))), ts[k], ts[k + 1], xtol=1e-14)
+            yc = sol.sol(tc)
+            rind = float(np.linalg.norm(yc[ridx] - target))
+            if rind > max(1e-8, 1e4 * tol):
+                viol.append(violation("orbit/independent_residual/%s" % fam, "correction reported residual %.1e but the constrained components %s at the first section crossing (t=%.6f) of the returned state are %s (target %s): independent residual %.3e [%s]" % (
+                    result.residual_norm, ridx, tc, yc[ridx].tolist(), target.tolist(), rind, tag), rind, tol))
+            if abs(2 * tc - T) > 1e-7 * max(1.0, T):
+                viol.append(violation("orbit/period_vs_crossing/%s" % fam, "reported period %.9f is not twice the first section-crossing time %.9f of the returned state [%s]" % (T, tc, tag), T, 2 * tc))
+    except Exception as exc:
+        raise RuntimeError("independent residual evaluation failed: %s: %s" % (type(exc).__name__, exc))
     c = closure(mu, x0, T)
     bound = max(1e-6, 1e4 * tol)
     if c > bound:
